@@ -80,6 +80,9 @@ CORE = [
     ("remove", "fresh"), ("remove", "nosp"), ("clear", "fresh"), ("clear", "stray"),
     # Job.reset() = clear() + init(): the model's composite program resetProg (Prog.seq)
     ("reset", "fresh"), ("reset", "stray"),
+    # the job holds a symbolic link to ANOTHER job's directory (inputs -> ../<other id>): emptying the job must not
+    # reach through the link (oracle only: the model has no links)
+    ("clear", "dirlink"), ("reset", "dirlink"), ("remove", "dirlink"),
 ]
 NO_MODEL_OPS = ()
 
@@ -222,6 +225,12 @@ def build_template(scn, root):
         if "stray" in dmg:
             with open(os.path.join(jd, "._%s_%s" % (uuid.UUID(int=7), SP)), "w") as f:
                 f.write('{"a"')
+    if scn["variant"] == "dirlink":
+        tgt = scn["jobs"][0]
+        others = [j for j in scn["jobs"][1:] if j["proj"] == tgt["proj"] and j["damage"] is None]
+        if others:     # (a shrunk scenario may have lost its bystander)
+            os.symlink(os.path.join(os.pardir, ref_id(others[0]["sp"])),
+                       os.path.join(projs[tgt["proj"]].workspace, ref_id(tgt["sp"]), "inputs"))
     return projs
 
 
@@ -251,8 +260,11 @@ def read_dir(path):
                 order.append(("d", r))
                 walk(r)
                 continue
-            with open(e.path, "rb") as f:
-                raw = f.read()
+            if e.is_symlink():
+                raw = ("<symbolic link to %s>" % os.readlink(e.path)).encode()
+            else:
+                with open(e.path, "rb") as f:
+                    raw = f.read()
             d["raw"][faultfs.canon_name(r)] = raw
             m = _TMP.match(e.name) or _TMPC.match(faultfs.canon_name(e.name))   # any temp-name scheme
             if not rel and e.name == SP:
@@ -711,7 +723,7 @@ def run_case(case, ctx):
                     with_model = False
                 else:
                     ev_m = [[e[0] - sum(1 for j in base_red if j < e[0])] + list(e[1:]) for e in ev]
-            if case["op"] in NO_MODEL_OPS:
+            if case["op"] in NO_MODEL_OPS or case["variant"] == "dirlink":
                 with_model = False
             if with_model:
                 model.append("exec %s %s %s" % (world_wire(pre), op_wire(case, orders), ev_wire(ev_m)))
